@@ -608,3 +608,55 @@ def report(ctx, rule, fn, laws, loc, floor):
             ctx.ok(rule, law, loc, detail=f"{F.n} cases")
     ctx.extra[fn.__name__ + "_cases"] = F.n
     return F
+
+
+# ---------------------------------------------------------------------------
+def explore_params_ownership(ctx):
+    """Every value object owns its parameters: two values built with the same
+    parameter mapping do not share it, and the caller's mapping is not changed
+    by editing a value's parameters."""
+    model = ctx.model
+    F = Findings()
+    n = DT("naive", 2, {"d": 1})
+    samples = {"vText": "a", "vCalAddress": "mailto:a@b", "vUri": "http://x", "vInt": 1, "vFloat": 1.5,
+               "vBoolean": True, "vBinary": "x", "vCategory": ["a"], "vDatetime": n,
+               "vDate": DT("date", 2, {"d": 1}), "vDuration": _td(60), "vDDDTypes": n,
+               "vDDDLists": [n], "vUTCOffset": _td(3600), "vWeekday": "MO", "vFrequency": "DAILY",
+               "vMonth": 1, "vInline": "x", "vGeo": (1.0, 2.0), "vTime": TimeVal("naive")}
+    for cname, sample in sorted(samples.items()):
+        ci = model.cls(f"prop.{cname}", required=False)
+        if ci is None:
+            continue
+        ctor = model.lookup_method(ci, "__init__") or model.lookup_method(ci, "__new__")
+        if ctor is None:
+            continue
+        a = ctor.node.args
+        pnames = [x.arg for x in a.args + a.kwonlyargs]
+        if "params" not in pnames:
+            continue
+        it = CodecInterp(model)
+        F.n += 1
+        try:
+            P = it.instantiate(model.cls("parser.Parameters"), [], {})
+            P.items["X-SHARED"] = "1"
+            v1 = it.instantiate(ci, [sample], {"params": P})
+            v2 = it.instantiate(ci, [sample], {"params": P})
+            p1 = it.getattr(v1, "params")
+            p2 = it.getattr(v2, "params")
+            if not (isinstance(p1, Obj) and p1.items is not None):
+                continue
+            it.setitem(p1, "CN", "edited")
+            if isinstance(p2, Obj) and p2.items is not None and "CN" in p2.items:
+                F.add("own parameters", f"two {cname} values built with the same parameter mapping share "
+                      f"it: editing one value's parameters changes the other's", cls=cname)
+            elif "CN" in P.items:
+                F.add("own parameters", f"editing the parameters of a {cname} value changes the mapping "
+                      f"the caller passed in", cls=cname)
+        except AbsRaise:
+            continue
+        except Unsupported as e:
+            raise AnalysisError(f"{cname}(value, params=...) leaves the abstract interface: {e}")
+    return F
+
+
+OWN_LAWS = ["own parameters"]
